@@ -145,6 +145,9 @@ func main() {
 	fo.Close()
 	fi.Close()
 
+	if o.samples == nil {
+		o.samples = []string{}
+	}
 	st := map[string]interface{}{
 		"evaluations":         o.n,
 		"distinct_nontrivial": len(o.distinct),
